@@ -127,6 +127,9 @@ def model (toks : List String) : String :=
         | .fuel => "fuel"
       s!"A {a} B {b}"
     | none => "bad-op"
+  -- `optx`: queries outside the modelled fragment (table valued functions, event time): purely differential, the
+  -- implementation's optimized run against its own unoptimized run
+  | "optx" :: _ => "same"
   | _ => "bad-op"
 
 /-! ### the oracle -/
@@ -299,6 +302,9 @@ def judge (toks : List String) (out : List String) : String :=
   match toks with
   | "plan" :: rest => judgePlan rest out
   | "raw" :: _ => if out == ["panic"] then "bad optimizer-panics" else "ok"
+  | "optx" :: _ =>
+    if out == ["same"] then "ok"
+    else s!"bad optimized-run-differs-from-unoptimized-run {String.intercalate " " (out.take 40)}"
   | "optq" :: rest =>
     let (a, b) := splitAt "B" (out.drop 1)
     if out.head? != some "A" then "bad unparsable-impl-output"
